@@ -1,6 +1,8 @@
 (* C09 — A read-only server never changes the file system. Theorems only; proofs in Proofs/ReadOnlyP.v *)
 From Coq Require Import List NArith Bool.
 From Sftp Require Import Base.GoSem Wire.Prim Wire.Packets Srv.ReadOnly Proofs.ReadOnlyP.
+From Sftp Require Import Fs.Tree.
+From Sftp Require Proofs.ReadOnlyTreeP.
 Import ListNotations.
 Open Scope N_scope.
 
@@ -40,6 +42,22 @@ Theorem C09_modifying_extensions_by_exact_name : forall payload p,
   ext_name payload = Some n_posix_rename \/ ext_name payload = Some n_hardlink.
 Proof. exact ext_modifying_only_exact_names. Qed.
 Print Assumptions C09_modifying_extensions_by_exact_name.
+
+(* `mutating` is a modelled fact about the os (which open(2) flags can change anything). On the name-space model of C05 (Fs/Tree.v,
+   tied to package os on every run) it is a theorem: an OpenFile whose flag word is classified as not mutating leaves the tree
+   exactly as it was, whatever the tree and the path - and the classification is not vacuous there (O_CREATE on a free name
+   does change the tree). With C09_ro_sequence_never_mutates: no sequence of requests to a read-only server changes the name
+   space through an OPEN. *)
+Theorem C09_nonmutating_open_keeps_the_tree : forall f t p c t', FsTree.wf t -> mutating (OOpenFile f) = false ->
+  FsTree.p_open (ReadOnlyTreeP.creat_of f) (ReadOnlyTreeP.excl_of f) (ReadOnlyTreeP.wr_of f) t p = Some (c, t') -> t' = t.
+Proof. exact ReadOnlyTreeP.nonmutating_open_keeps_tree. Qed.
+Print Assumptions C09_nonmutating_open_keeps_the_tree.
+
+Theorem C09_mutating_open_can_change_the_tree : exists f t p t',
+  mutating (OOpenFile f) = true /\ FsTree.wf t /\
+  FsTree.p_open (ReadOnlyTreeP.creat_of f) (ReadOnlyTreeP.excl_of f) (ReadOnlyTreeP.wr_of f) t p = Some (FsTree.TOk, t') /\ t' <> t.
+Proof. exact ReadOnlyTreeP.mutating_open_can_change. Qed.
+Print Assumptions C09_mutating_open_can_change_the_tree.
 
 (* the pinned tree violated the property (finding F2, repaired): hardlink, OPEN READ|CREAT, OPEN READ|TRUNC *)
 Theorem C09_pinned_tree_refuted :
